@@ -13,6 +13,11 @@
 (*   once "channel n deleted" has been announced, no ChannelData the client *)
 (*   SUBMITTED AFTER the announcement on n reaches a peer until n is        *)
 (*   announced again (C01).                                                 *)
+(*   once the client HOLDS the success response to its Refresh with        *)
+(*   lifetime 0 ("alloc-", logged when the response is read), everything    *)
+(*   the allocation had is gone: nothing sent after that moment arrives in  *)
+(*   either direction (C06: removed immediately, the relayed address no     *)
+(*   longer relays).                                                        *)
 (* (a datagram sent before an announcement may be logged after it: it was   *)
 (* relayed while the entry still existed; that is why sends are logged.)    *)
 (***************************************************************************)
@@ -30,6 +35,12 @@ IsEvent(e) == l <= Len(Tr) /\ Line.e = e /\ l' = l + 1
 
 TInit  == l = 1 /\ goneP = {} /\ goneC = {} /\ liveC = {} /\ late = {}
 TReset == IsEvent("Reset") /\ goneP' = {} /\ goneC' = {} /\ liveC' = {} /\ late' = {}
+SeqSet(q) == {q[i] : i \in DOMAIN q}
+TGone  == IsEvent("Gone")    \* the Refresh(0) success is in the client's hands; ips / chans: what the allocation had
+          /\ goneP' = goneP \cup SeqSet(Line.ips)
+          /\ goneC' = goneC \cup SeqSet(Line.chans)
+          /\ liveC' = liveC \ SeqSet(Line.chans)
+          /\ UNCHANGED late
 TEv    == IsEvent("Ev")
           /\ goneP' = (IF Line.kind = "perm-" THEN goneP \cup {Line.key} ELSE IF Line.kind = "perm+" THEN goneP \ {Line.key} ELSE goneP)
           /\ goneC' = (IF Line.kind = "chan-" THEN goneC \cup {Line.key} ELSE IF Line.kind = "chan+" THEN goneC \ {Line.key} ELSE goneC)
@@ -44,7 +55,7 @@ TSendC == IsEvent("ChanSend") /\ late' = (IF Line.n \in goneC THEN late \cup {Li
 \* something arrived: it was not sent while its authority had been announced gone
 TArrive == IsEvent("Arrive") /\ Line.id \notin late /\ UNCHANGED <<goneP, goneC, liveC, late>>
 TNote  == IsEvent("Note") /\ UNCHANGED <<goneP, goneC, liveC, late>>
-TNext == TReset \/ TEv \/ TSendP \/ TSendC \/ TArrive \/ TNote
+TNext == TReset \/ TEv \/ TGone \/ TSendP \/ TSendC \/ TArrive \/ TNote
 TSpec == TInit /\ [][TNext]_tvars
 
 Progress == TLCSet(1, IF l > TLCGet(1) THEN l ELSE TLCGet(1))
